@@ -431,18 +431,28 @@ Proof. destruct u; unfold dateadd_impl, dateadd; try reflexivity; f_equal; lia. 
 
 Lemma time_agg_date_impl_ok z t : time_agg_date_impl z t = period_of_date t z.
 Proof.
-  destruct t; unfold time_agg_date_impl, period_of_date; try reflexivity.
-  pose proof (month_of_range z). f_equal. rewrite Z.quot_div_nonneg by lia. reflexivity.
+  pose proof (month_of_range z) as Hm.
+  unfold time_agg_date_impl, time_agg_date_of, period_of_date, doy_of, year_of, month_of in *.
+  destruct (civil_from_days z) as [[y m] d]. destruct t; try reflexivity.
+  f_equal. rewrite Z.quot_div_nonneg by lia. reflexivity.
 Qed.
 
 Lemma time_agg_tp_impl_ok p t : period_valid p = true ->
   time_agg_tp_impl p t = match time_agg t p with Some q => AggOk q | None => AggFiner end.
 Proof.
-  intros V. unfold time_agg_tp_impl, time_agg. destruct (rank t <? rank (p_ind p)); [reflexivity|].
+  intros V. unfold time_agg_tp_impl, time_agg_of_end, time_agg. destruct (rank t <? rank (p_ind p)); [reflexivity|].
   replace (ind_eqb (p_ind p) t) with (ind_eqb t (p_ind p)) by (destruct t, (p_ind p); reflexivity).
   destruct (ind_eqb t (p_ind p)); [reflexivity|].
   rewrite (end_date_impl_ok p V), time_agg_date_impl_ok. reflexivity.
 Qed.
+
+(* the row evaluated by the correspondence is made of the macro transcriptions themselves (sharing of vtl_tp_end_date only) *)
+Lemma tie_scalar_row_unfold p :
+  tie_scalar_row p =
+  ([if period_valid p then 1 else 0; enc_day (start_date_impl p); enc_day (end_date_impl p);
+    enc_num (getmonth_impl p); enc_num (dayofmonth_impl p); enc_num (dayofyear_impl p)]
+   ++ map (fun t => enc_agg (time_agg_tp_impl p t)) all_ind ++ [enc_p (next_impl p)])%list.
+Proof. reflexivity. Qed.
 
 (* ------------------------------------------------------------------ vtl_tp_shift against the specification *)
 (* A/S/Q/M: the macro is correct for every year and every shift *)
@@ -673,4 +683,260 @@ Proof.
   cbn [opt_bind]. cbv zeta.
   destruct (period_valid (mkP (digits_val (sub3 s 1 4) 0) i n)) eqn:E; [|discriminate].
   intros H. injection H as <-. exact E.
+Qed.
+
+(* ================================================================== the engine's string code against the documented forms *)
+(* ------------------------------------------------------------------ Python renderers against the documented formats *)
+Lemma dec_int_pad4 y : 1000 <= y <= 9999 -> dec_int y = pad4 y.
+Proof.
+  intros H. unfold dec_int. replace (y <? 0) with false by lia.
+  unfold dec_nat, pad4, pad3, pad2, str1. cbn [dec_fuel].
+  replace (y / 10 =? 0) with false by lia. replace (y / 10 / 10 =? 0) with false by lia.
+  replace (y / 10 / 10 / 10 =? 0) with false by lia. replace (y / 10 / 10 / 10 / 10 =? 0) with true by lia.
+  replace (y / 10 / 10 / 10 mod 10) with (y / 1000 mod 10) by lia.
+  replace (y / 10 / 10 mod 10) with (y / 100 mod 10) by lia. reflexivity.
+Qed.
+
+Definition small_ok (n : Z) : bool :=
+  String.eqb (dec_int n) (dec_nat n) && (if n <=? 99 then String.eqb (py02 n) (pad2 n) else true) && String.eqb (py03 n) (pad3 n).
+Lemma small_ok_all : all_range 1 366 small_ok = true.
+Proof. vm_compute. reflexivity. Qed.
+Lemma small_nums n : 1 <= n <= 366 -> dec_int n = dec_nat n /\ (n <= 99 -> py02 n = pad2 n) /\ py03 n = pad3 n.
+Proof.
+  intros H. assert (Hr : 1 <= n < 1 + 366) by lia. pose proof (all_range_sound _ _ _ small_ok_all n Hr) as S.
+  unfold small_ok in S. apply andb_true_iff in S. destruct S as [S S3]. apply andb_true_iff in S. destruct S as [S1 S2].
+  apply String.eqb_eq in S1. apply String.eqb_eq in S3. split; [exact S1|]. split; [|exact S3].
+  intros Hn. replace (n <=? 99) with true in S2 by lia. apply String.eqb_eq in S2. exact S2.
+Qed.
+
+(* month and day of the n-th day of the year, from the calendar *)
+Definition md_ok (lp : bool) (n : Z) : bool :=
+  let '(m, d) := md_of_doy lp n in md_valid lp m d && (month_offset lp m + d =? n).
+Lemma md_ok_all (lp : bool) : all_range 1 (if lp then 366 else 365) (md_ok lp) = true.
+Proof. destruct lp; vm_compute; reflexivity. Qed.
+
+Lemma md_valid_date y m d : md_valid (is_leap y) m d = true -> valid_date y m d = true.
+Proof.
+  unfold md_valid, valid_date, days_in_month, month_lengths. intros H.
+  assert (Hm : 1 <= m <= 12) by lia.
+  assert (C : m = 1 \/ m = 2 \/ m = 3 \/ m = 4 \/ m = 5 \/ m = 6 \/ m = 7 \/ m = 8 \/ m = 9 \/ m = 10 \/ m = 11 \/ m = 12) by lia.
+  revert H. destruct (is_leap y);
+    repeat (destruct C as [-> | C]; [cbn [Z.eqb Pos.eqb orb Z.sub Z.to_nat nth]; vm_compute (Z.to_nat _); cbn [nth]; lia|]);
+    subst m; vm_compute (Z.to_nat _); cbn [nth Z.eqb Pos.eqb orb]; lia.
+Qed.
+
+Lemma civil_of_doy y n : 1 <= n <= days_in_year y ->
+  civil_from_days (jan1 y + (n - 1)) = (y, fst (md_of_doy (is_leap y) n), snd (md_of_doy (is_leap y) n)).
+Proof.
+  intros H.
+  assert (Hr : 1 <= n < 1 + (if is_leap y then 366 else 365)) by (unfold days_in_year in H; destruct (is_leap y); lia).
+  pose proof (all_range_sound _ _ _ (md_ok_all (is_leap y)) n Hr) as S. unfold md_ok in S.
+  destruct (md_of_doy (is_leap y) n) as [m d]. cbn [fst snd].
+  apply andb_true_iff in S. destruct S as [V E]. apply Z.eqb_eq in E.
+  pose proof (md_valid_date y m d V) as V'.
+  rewrite <- (civil_days_roundtrip y m d V'). f_equal.
+  assert (Hm : 1 <= m <= 12) by (unfold valid_date in V'; lia).
+  rewrite (days_from_civil_month y m d Hm). lia.
+Qed.
+
+Lemma render_date_doy y n : 0 <= y <= 9999 -> 1 <= n <= days_in_year y ->
+  render_date (jan1 y + (n - 1)) = pad4 y ++ date_suffix (is_leap y) n.
+Proof.
+  intros Y H. unfold render_date, date_suffix. rewrite (civil_of_doy y n H).
+  destruct (md_of_doy (is_leap y) n) as [m d]. cbn [fst snd]. reflexivity.
+Qed.
+
+Lemma valid_num_366 p : period_valid p = true -> 1 <= p_num p <= 366.
+Proof. intros V. pose proof (valid_max_num p V) as H. unfold max_num in H. destruct (p_ind p), (is_leap (p_year p)); lia. Qed.
+
+Lemma valid_num_99 p : period_valid p = true -> p_ind p <> ID -> 1 <= p_num p <= 99.
+Proof. intros V Hi. pose proof (valid_max_num p V) as H. unfold max_num in H. destruct (p_ind p), (is_leap (p_year p)); try lia; congruence. Qed.
+
+(* for years 1000..9999 the Python renderers produce exactly the documented representations *)
+Lemma py_render_ok f p : period_valid p = true -> 1000 <= p_year p <= 9999 ->
+  py_render f p = match render f p with Some s => CkOk s | None => CkErr "2-1-19-21" end.
+Proof.
+  intros V Y. pose proof (valid_num_366 p V) as N. destruct (small_nums (p_num p) N) as [D1 [D2 D3]].
+  pose proof (valid_num_99 p V) as N99.
+  unfold py_render, render, render_suffix, py_iso_date. rewrite (dec_int_pad4 _ Y), D1.
+  replace (p_year p <? 1000) with false by lia.
+  destruct p as [y i n]. cbn [p_year p_ind p_num] in *.
+  destruct f, i; cbn [option_map ind_letter]; try reflexivity;
+    try (rewrite D2 by (assert (IM <> ID) by discriminate; assert (IW <> ID) by discriminate; lia); reflexivity);
+    try (rewrite D3; reflexivity);
+    try (rewrite render_date_doy by (try lia; apply period_valid_iff in V; exact V); reflexivity).
+Qed.
+
+Lemma py_str_canonical p : period_valid p = true -> 1000 <= p_year p <= 9999 -> py_str p = canonical p.
+Proof.
+  intros V Y. pose proof (valid_num_366 p V) as N. destruct (small_nums (p_num p) N) as [D1 [D2 D3]].
+  pose proof (valid_num_99 p V) as N99.
+  unfold py_str, canonical, canonical_suffix. rewrite (dec_int_pad4 _ Y).
+  destruct p as [y i n]. cbn [p_year p_ind p_num] in *.
+  destruct i; cbn [ind_letter]; try reflexivity; try (rewrite D1; reflexivity).
+  - fold (py02 n). rewrite D2 by (assert (IM <> ID) by discriminate; lia). reflexivity.
+  - fold (py02 n). rewrite D2 by (assert (IW <> ID) by discriminate; lia). reflexivity.
+  - fold (py03 n). rewrite D3. reflexivity.
+Qed.
+
+(* below 1000 the Python side leaves the documented YYYY form *)
+Lemma py_render_low_year_refuted :
+  exists p, period_valid p = true /\ 0 <= p_year p <= 9999 /\ py_render FVtl p <> match render FVtl p with Some s => CkOk s | None => CkErr "2-1-19-21" end
+            /\ py_str p <> canonical p.
+Proof. exists (mkP 1 IM 1). split; [reflexivity|]. split; [cbn [p_year]; lia|]. split; vm_compute; discriminate. Qed.
+
+(* ------------------------------------------------------------------ SQL renderers (the four vtl_period_to_ macros) on the canonical string *)
+Definition S4 (a b c d : ascii) (t : string) : string := String a (String b (String c (String d t))).
+Definition render_impl_expect (f : fmt) (a b c d : ascii) (i : ind) (n : Z) : sres :=
+  match f, i with
+  | FGregorian, ID | FNatural, ID => doy_to_date_impl (S4 a b c d "") (Some n)
+  | _, _ => match render_suffix f false i n with Some t => SOk (S4 a b c d t) | None => SErr end
+  end.
+Ltac enum_cases H tac := repeat (destruct H as [<- | H]; [tac|]); try (destruct H).
+
+(* the macros never look at the four year characters: proved for ARBITRARY characters a b c d by running the macro on every
+   (indicator, number) with the year characters left symbolic *)
+Lemma render_impl_S4 a b c d f i n : 1 <= n <= static_max i ->
+  render_impl f (S4 a b c d (canonical_suffix i n)) = render_impl_expect f a b c d i n.
+Proof.
+  intros H. assert (Hin : In n (zrange 1 (static_max i))) by (apply zrange_In; [destruct i; simpl; lia | lia]).
+  destruct i; vm_compute in Hin; enum_cases Hin ltac:(destruct f; reflexivity).
+Qed.
+
+Lemma pad4_S4 y t : pad4 y ++ t = S4 (digit_char (y / 1000 mod 10)) (digit_char (y / 100 mod 10)) (digit_char (y / 10 mod 10)) (digit_char (y mod 10)) t.
+Proof. reflexivity. Qed.
+
+Lemma doy_to_date_impl_ok y n : 0 <= y <= 9999 -> 1 <= n <= days_in_year y ->
+  doy_to_date_impl (pad4 y) (Some n) = SOk (pad4 y ++ date_suffix (is_leap y) n).
+Proof.
+  intros Y H. unfold doy_to_date_impl. destruct (pad4_digits y Y) as [D V]. rewrite D, V.
+  change (slen (pad4 y) =? 4) with true. cbn [andb]. rewrite (render_date_doy y n Y H). reflexivity.
+Qed.
+
+Lemma static_max_ge p : period_valid p = true -> 1 <= p_num p <= static_max (p_ind p).
+Proof. intros V. pose proof (valid_max_num p V) as H. unfold max_num in H. unfold static_max. destruct (p_ind p), (is_leap (p_year p)); lia. Qed.
+
+(* the four SQL renderers applied to the canonical string give the documented representation, or the error for S/Q/W in
+   sdmx_gregorian — every valid period, every year 0..9999 *)
+Lemma render_impl_ok f p : period_valid p = true -> 0 <= p_year p <= 9999 ->
+  render_impl f (canonical p) = match render f p with Some s => SOk s | None => SErr end.
+Proof.
+  intros V Y. unfold canonical. rewrite pad4_S4, (render_impl_S4 _ _ _ _ f _ _ (static_max_ge p V)).
+  unfold render_impl_expect, render.
+  assert (Hd : p_ind p = ID -> 1 <= p_num p <= days_in_year (p_year p)) by (intros E; apply period_valid_iff in V; rewrite E in V; exact V).
+  destruct p as [y i n]. cbn [p_year p_ind p_num] in *.
+  destruct f, i; cbn [render_suffix option_map]; try reflexivity;
+    change (S4 (digit_char (y / 1000 mod 10)) (digit_char (y / 100 mod 10)) (digit_char (y / 10 mod 10)) (digit_char (y mod 10)) "") with (pad4 y);
+    rewrite (doy_to_date_impl_ok y n Y (Hd eq_refl)); reflexivity.
+Qed.
+
+(* vtl_period_to_string on the struct: CAST(year AS VARCHAR) is unpadded, so it is the canonical form only from year 1000 on *)
+Definition lpad_ok (n : Z) : bool :=
+  String.eqb (lpad0 (dec_int n) 1) (if n <=? 9 then dec_nat n else sub3 (dec_nat n) 1 1)
+  && (if n <=? 99 then String.eqb (lpad0 (dec_int n) 2) (pad2 n) else true) && String.eqb (lpad0 (dec_int n) 3) (pad3 n).
+Lemma lpad_ok_all : all_range 1 366 lpad_ok = true.
+Proof. vm_compute. reflexivity. Qed.
+
+Lemma period_to_string_impl_ok p : period_valid p = true -> 1000 <= p_year p <= 9999 -> period_to_string_impl p = canonical p.
+Proof.
+  intros V Y. pose proof (valid_num_366 p V) as N. pose proof (valid_num_99 p V) as N99. pose proof (valid_max_num p V) as M.
+  assert (Hr : 1 <= p_num p < 1 + 366) by lia. pose proof (all_range_sound _ _ _ lpad_ok_all _ Hr) as L.
+  unfold lpad_ok in L. apply andb_true_iff in L. destruct L as [L L3]. apply andb_true_iff in L. destruct L as [L1 L2].
+  apply String.eqb_eq in L1. apply String.eqb_eq in L3.
+  unfold period_to_string_impl, canonical, canonical_suffix. rewrite (dec_int_pad4 _ Y).
+  destruct p as [y i n]. cbn [p_year p_ind p_num] in *. unfold max_num in M.
+  destruct i; cbn [ind_letter num_width]; try reflexivity.
+  - rewrite L1. replace (n <=? 9) with true by lia. reflexivity.
+  - rewrite L1. replace (n <=? 9) with true by lia. reflexivity.
+  - replace (n <=? 99) with true in L2 by lia. apply String.eqb_eq in L2. rewrite L2. reflexivity.
+  - replace (n <=? 99) with true in L2 by lia. apply String.eqb_eq in L2. rewrite L2. reflexivity.
+  - rewrite L3. reflexivity.
+Qed.
+
+Lemma period_to_string_low_year_refuted :
+  exists p, period_valid p = true /\ period_to_string_impl p <> canonical p /\ period_parse_impl (period_to_string_impl p) = None.
+Proof. exists (mkP 1 IM 1). split; [reflexivity|]. split; vm_compute; [discriminate | reflexivity]. Qed.
+
+(* ------------------------------------------------------------------ vtl_period_normalize on every documented spelling *)
+Definition plain_spellings (i : ind) (n : Z) : list string :=
+  match i with ID => removelast (spelling_suffixes false ID n) | _ => spelling_suffixes false i n end.
+
+Lemma spelling_suffixes_split lp i n :
+  spelling_suffixes lp i n = (plain_spellings i n ++ match i with ID => [date_suffix lp n] | _ => [] end)%list.
+Proof. destruct i; try (cbn [plain_spellings spelling_suffixes]; rewrite app_nil_r; reflexivity). reflexivity. Qed.
+
+Lemma normalize_plain_S4 a b c d i n s : 1 <= n <= static_max i -> In s (plain_spellings i n) ->
+  period_normalize_impl (S4 a b c d s) = SOk (S4 a b c d (canonical_suffix i n)).
+Proof.
+  intros H. assert (Hin : In n (zrange 1 (static_max i))) by (apply zrange_In; [destruct i; simpl; lia | lia]).
+  destruct i; vm_compute in Hin;
+    enum_cases Hin ltac:(let Hs := fresh "Hs" in intros Hs; vm_compute in Hs; enum_cases Hs ltac:(reflexivity)).
+Qed.
+
+(* the ISO date spelling YYYY-MM-DD *)
+Lemma normalize_date_S4 a b c d m dd : 1 <= m <= 12 -> 1 <= dd <= 31 ->
+  period_normalize_impl (S4 a b c d ("-" ++ pad2 m ++ "-" ++ pad2 dd)) =
+  norm_num 3 (cast_date_doy (S4 a b c d ("-" ++ pad2 m ++ "-" ++ pad2 dd))) false (S4 a b c d "-D").
+Proof.
+  intros Hm Hd.
+  assert (Im : In m (zrange 1 12)) by (apply zrange_In; lia). assert (Id : In dd (zrange 1 31)) by (apply zrange_In; lia).
+  vm_compute in Im. vm_compute in Id.
+  enum_cases Im ltac:(let H := fresh "H" in pose proof Id as H; enum_cases H ltac:(reflexivity)).
+Qed.
+
+Lemma pad2_digits n : 0 <= n <= 99 -> parse_digits (pad2 n) = Some n.
+Proof.
+  intros H. unfold parse_digits, pad2, str1. cbn [all_digits digits_val].
+  destruct (digit_char_ok (n / 10 mod 10)) as [A1 B1]; [lia|]. destruct (digit_char_ok (n mod 10)) as [A2 B2]; [lia|].
+  rewrite A1, A2, B1, B2. cbn [andb]. f_equal. lia.
+Qed.
+
+Lemma cast_date_doy_ok y m dd : 0 <= y <= 9999 -> valid_date y m dd = true ->
+  cast_date_doy (pad4 y ++ "-" ++ pad2 m ++ "-" ++ pad2 dd) = Some (month_offset (is_leap y) m + dd).
+Proof.
+  intros Y V. destruct (pad4_digits y Y) as [D Vy].
+  assert (Hm : 1 <= m <= 12 /\ 1 <= dd <= 31) by (unfold valid_date in V; pose proof (days_in_month_bounds y m); lia).
+  unfold cast_date_doy.
+  change (slen (pad4 y ++ "-" ++ pad2 m ++ "-" ++ pad2 dd) =? 10) with true.
+  change (sub3 (pad4 y ++ "-" ++ pad2 m ++ "-" ++ pad2 dd) 1 4) with (pad4 y).
+  change (sub3 (pad4 y ++ "-" ++ pad2 m ++ "-" ++ pad2 dd) 5 1) with "-".
+  change (sub3 (pad4 y ++ "-" ++ pad2 m ++ "-" ++ pad2 dd) 8 1) with "-".
+  change (sub3 (pad4 y ++ "-" ++ pad2 m ++ "-" ++ pad2 dd) 6 2) with (pad2 m).
+  change (sub3 (pad4 y ++ "-" ++ pad2 m ++ "-" ++ pad2 dd) 9 2) with (pad2 dd).
+  rewrite D, Vy. change ("-" =s "-") with true. cbn [andb].
+  rewrite (pad2_digits m) by lia. rewrite (pad2_digits dd) by lia. cbn [opt_bind]. rewrite V.
+  rewrite (doy_of_civil y m dd V). reflexivity.
+Qed.
+
+(* vtl_period_normalize maps every documented spelling of a valid period to its canonical form — every year 0..9999 *)
+Lemma period_normalize_impl_ok p s : period_valid p = true -> 0 <= p_year p <= 9999 ->
+  In s (spellings p) -> period_normalize_impl s = SOk (canonical p).
+Proof.
+  intros V Y Hs. unfold spellings in Hs. apply in_map_iff in Hs. destruct Hs as [t [<- Ht]].
+  rewrite spelling_suffixes_split in Ht. apply in_app_or in Ht. unfold canonical. destruct Ht as [Ht | Ht].
+  - rewrite !pad4_S4. apply normalize_plain_S4; [apply static_max_ge, V | exact Ht].
+  - destruct (p_ind p) eqn:Ei; try (destruct Ht; fail). destruct Ht as [<- | []].
+    assert (Hn : 1 <= p_num p <= days_in_year (p_year p)) by (apply period_valid_iff in V; rewrite Ei in V; exact V).
+    assert (Hr : 1 <= p_num p < 1 + (if is_leap (p_year p) then 366 else 365))
+      by (unfold days_in_year in Hn; destruct (is_leap (p_year p)); lia).
+    pose proof (all_range_sound _ _ _ (md_ok_all (is_leap (p_year p))) _ Hr) as S. unfold md_ok in S.
+    unfold date_suffix. destruct (md_of_doy (is_leap (p_year p)) (p_num p)) as [m dd].
+    apply andb_true_iff in S. destruct S as [Vm E]. apply Z.eqb_eq in E.
+    pose proof (md_valid_date _ _ _ Vm) as Vd.
+    assert (Hm : 1 <= m <= 12 /\ 1 <= dd <= 31) by (unfold valid_date in Vd; pose proof (days_in_month_bounds (p_year p) m); lia).
+    rewrite pad4_S4, normalize_date_S4 by lia. rewrite <- pad4_S4. rewrite (cast_date_doy_ok _ _ _ Y Vd), E.
+    pose proof (valid_num_366 p V) as N. assert (Hr2 : 1 <= p_num p < 1 + 366) by lia.
+    pose proof (all_range_sound _ _ _ lpad_ok_all _ Hr2) as L. unfold lpad_ok in L.
+    apply andb_true_iff in L. destruct L as [_ L3]. apply String.eqb_eq in L3.
+    unfold norm_num. change (3 =? 1) with false. cbv iota. rewrite L3. reflexivity.
+Qed.
+
+(* Python and SQL renderers agree (years 1000..9999) *)
+Definition sres_ck (r : sres) : ckres := match r with SOk s => CkOk s | SNull => CkErr "NULL" | SErr => CkErr "2-1-19-21" end.
+Lemma py_sql_render_agree f p : period_valid p = true -> 1000 <= p_year p <= 9999 ->
+  py_render f p = sres_ck (render_impl f (period_to_string_impl p)).
+Proof.
+  intros V Y. assert (Y0 : 0 <= p_year p <= 9999) by lia.
+  rewrite (period_to_string_impl_ok p V Y), (render_impl_ok f p V Y0), (py_render_ok f p V Y).
+  destruct (render f p); reflexivity.
 Qed.
